@@ -22,23 +22,35 @@ INI_WIDE = (b'[snoopy]\noutput = file:@D@/out.log\nmessage_format = "%{snoopy_th
 
 
 def query_handlers(run):
-    """the handler kinds the Coq side recognises in the generated skeletons -> consts_conc.tsv for the model driver"""
-    qf = os.path.join(run.scratch, "props", "Query_conc.v")
-    os.makedirs(os.path.dirname(qf), exist_ok=True)
+    """the handler kinds the Coq side recognises in the generated skeletons -> sidecar consts_conc.tsv for the model driver.
+    Called BEFORE run.coq_props, so that the sidecar takes part in the reference mechanism (saved with VERIF_MKREF, replaced by the
+    reference copy when an obligation is broken); read it back with load_handlers AFTER coq_props."""
+    qd = os.path.join(run.scratch, "query")
+    os.makedirs(qd, exist_ok=True)
+    qf = os.path.join(qd, "Query_conc.v")
     open(qf, "w").write("From Snoopy Require Import Conc.Tsrm Conc.LockSkel.\nFrom Gen Require Import Gen_Conc.\n"
                         "Eval vm_compute in (match handlers_of tsrm_fns constructors with Some h => (1, (if h_prepare h then 1 else 0), (if h_parent h then 1 else 0), "
                         "match h_child h with CNone => 0 | CUnlock => 1 | CReinit => 2 | CReinitClear => 3 end, (if h_preinit h then 1 else 0)) | None => (0, 0, 0, 0, 0) end).\n")
-    p = sh(["timeout", "120", "coqc", "-q", "-Q", THEORIES, "Snoopy", "-Q", run.gen, "Gen", qf], check=False)
+    base = ["timeout", "120", "coqc", "-q", "-Q", THEORIES, "Snoopy", "-Q", run.gen, "Gen"]
+    sh(base + [os.path.join(run.gen, "Gen_Conc.v")], check=False)
+    p = sh(base + [qf], check=False)
     m = re.search(r"=\s*\((\d), (\d), (\d), (\d), (\d)\)", p.stdout)
     hs = tuple(int(x) for x in m.groups()) if m else (0, 0, 0, 0, 0)
-    known, pr, pa, ch, pre = hs
-    open(os.path.join(run.scratch, "consts_%s.tsv" % AREA), "w").write("h_known\t%d\nh_prepare\t%d\nh_parent\t%d\nh_child\t%d\nh_preinit\t%d\n" % (known, pr, pa, ch, pre))
-    return {"known": bool(known), "prepare": bool(pr), "parent": bool(pa), "child": ch, "preinit": bool(pre)}
+    open(os.path.join(run.scratch, "consts_%s.tsv" % AREA), "w").write("h_known\t%d\nh_prepare\t%d\nh_parent\t%d\nh_child\t%d\nh_preinit\t%d\n" % hs)
+
+
+def load_handlers(run):
+    d = {}
+    for line in open(os.path.join(run.scratch, "consts_%s.tsv" % AREA)):
+        k, v = line.rstrip("\n").split("\t")
+        d[k] = int(v)
+    return {"known": bool(d.get("h_known")), "prepare": bool(d.get("h_prepare")), "parent": bool(d.get("h_parent")), "child": d.get("h_child", 0),
+            "preinit": bool(d.get("h_preinit")), "reference": bool(getattr(run, "using_reference", False))}
 
 
 def query_unprotected(run):
     """names of the static-storage objects the classification leaves unprotected (for the report of a broken obligation)"""
-    qf = os.path.join(run.scratch, "props", "Query_globals.v")
+    qf = os.path.join(run.scratch, "query", "Query_globals.v")
     os.makedirs(os.path.dirname(qf), exist_ok=True)
     open(qf, "w").write("From Coq Require Import String List.\nFrom Snoopy Require Import Conc.LockSkel.\nFrom Gen Require Import Gen_Conc Gen_Globals.\n"
                         "Eval vm_compute in (unprotected tsrm_fns globals (reachable_fns fn_refs data_refs), lock_objects globals).\n")
@@ -56,9 +68,13 @@ def setup_conc(run):
 
 
 def build_dlist(run):
+    """function-level driver for util/list.c.  Linked against the NON-thread-safe objects of the snapshot (same list.c; its error handler then
+    reads the global configuration): the driver runs every case in a forked worker, and must not depend on what the thread-safe build does
+    around fork() - that is C10's subject, not the list's."""
+    from vlib.syslevel import drop_thread_safety
     exe = os.path.join(run.scratch, "impl_dlist")
     if not os.path.exists(exe):
-        objs = [o for o in run.build_objs("asan", san=True) if not o.endswith("src__util__list.o")]
+        objs = [o for o in run.build_objs("asan-nts", san=True, config_edit=drop_thread_safety) if not o.endswith("src__util__list.o") and not o.endswith("src__tsrm.o")]
         run.link(exe, [os.path.join(VERIF, "harness", "impl_dlist.c")], objs, san=True, extra=["-I" + os.path.join(VERIF, "harness")])
     return exe
 
@@ -264,14 +280,21 @@ def make_plans(run, ops, tier, rng):
 
 def check(run):
     lib, facts = setup_conc(run)
+    query_handlers(run)
     ok, failed, log = run.coq_props(["Properties_C09.v"])
-    hs = query_handlers(run)
+    hs = load_handlers(run)
     rng = run.rng
     quick = run.tier == "quick"
     # ---------------------------------------------------------------- function level: util/list.c vs the heap model
     dl = build_dlist(run)
-    dcases = corpus_cases("C09", "dlist\t") + gen_dlist_cases(rng, 400 if quick else 20000)
-    res = corr_stream(run, AREA, dl, dcases, stream="dlist")
+    dcases = corpus_cases("C09", "dlist\t")
+    res = corr_stream(run, AREA, dl, dcases, stream="dlist-corpus")
+    if not [1 for (i, c, m, im) in res["mismatch"] if not im.startswith("ok")]:
+        # the corpus ran through without a dying worker: the random stream (a worker that dies in every case would cost one alarm per case)
+        more = gen_dlist_cases(rng, 400 if quick else 20000)
+        res2 = corr_stream(run, AREA, dl, more, stream="dlist")
+        dcases = dcases + more
+        res = {"mismatch": res["mismatch"] + res2["mismatch"]}
     for (i, c, m, im) in res["mismatch"][:1]:
         st = im.split("\t")[0]
         run.violation("dlist:%s" % st, "sanitizer" if st != "ok" else "spec_violation",
